@@ -216,6 +216,20 @@ Apply(s, op, a) ==
               IF ch # "ok" THEN Res(s, Err(ch))
               ELSE IF a.count > Len(a.src) THEN Res(s, Err("IOError"))
               ELSE Res(Done(Wr(s, O + a.addr, a.src, a.count)), OkU)
+       \* the same two from a Cursor over a.src standing at a.pos (which may lie beyond the end: nothing is left then)
+    [] op = "read_cursor" ->
+         LET av == IF a.pos >= Len(a.src) THEN <<>> ELSE SubSeq(a.src, a.pos + 1, Len(a.src)) IN
+         IF ~IsSlice(c) THEN Res(s, Skip)
+         ELSE IF ChkOff(L, a.addr) # "ok" THEN Res(s, Err(ChkOff(L, a.addr)))
+         ELSE LET n == Min(Min(L - a.addr, a.count), Len(av)) IN
+              Res(Done(Wr(s, O + a.addr, av, n)), OkN(n))
+    [] op = "read_exact_cursor" ->
+         LET av == IF a.pos >= Len(a.src) THEN <<>> ELSE SubSeq(a.src, a.pos + 1, Len(a.src)) IN
+         IF ~IsSlice(c) THEN Res(s, Skip)
+         ELSE LET ch == Chk(L, a.addr, a.count) IN
+              IF ch # "ok" THEN Res(s, Err(ch))
+              ELSE IF a.count > Len(av) THEN Res(s, Err("IOError"))
+              ELSE Res(Done(Wr(s, O + a.addr, av, a.count)), OkU)
     [] op = "write_volatile_to" ->
          IF ~IsSlice(c) THEN Res(s, Skip)
          ELSE IF ChkOff(L, a.addr) # "ok" THEN Res(s, Err(ChkOff(L, a.addr)))
@@ -331,6 +345,9 @@ ReadVolatileFrom == \E x \in OffVals, k \in BufLens, n \in CntVals :
                        Step("read_volatile_from", [addr |-> x, src |-> Tag(k), count |-> n])
 ReadExactVolatileFrom == \E x \in OffVals, k \in BufLens, n \in CntVals :
                        Step("read_exact_volatile_from", [addr |-> x, src |-> Tag(k), count |-> n])
+ReadCursor == \E x \in OffVals, k \in BufLens, n \in CntVals, p \in {0, 1, 3} :
+                       \/ Step("read_cursor", [addr |-> x, src |-> Tag(k), pos |-> p, count |-> n])
+                       \/ Step("read_exact_cursor", [addr |-> x, src |-> Tag(k), pos |-> p, count |-> n])
 WriteVolatileTo == \E x \in OffVals, n \in CntVals : Step("write_volatile_to", [addr |-> x, count |-> n])
 WriteAllVolatileTo == \E x \in OffVals, n \in CntVals : Step("write_all_volatile_to", [addr |-> x, count |-> n])
 WriteToCursor == \E x \in OffVals, n \in CntVals, k \in {0, 2} : Step("write_to_cursor", [addr |-> x, count |-> n, room |-> k])
@@ -364,7 +381,7 @@ Derivations == \/ Subslice \/ GetSlice \/ Offset \/ SplitAt \/ GetRef \/ GetArra
 Queries     == \/ ComputeEndOffset \/ LenQ \/ PtrGuard \/ GetAtomicRef \/ AlignedAsRef
 DataOps     == \/ Write \/ Read \/ WriteSlice \/ ReadSlice \/ WriteObj \/ ReadObj \/ Store \/ Load
                \/ CopyTo \/ CopyFrom \/ CopyToVS \/ ReadVolatileFrom \/ ReadExactVolatileFrom
-               \/ WriteVolatileTo \/ WriteAllVolatileTo \/ WriteToCursor \/ WriteAllToCursor \/ ReadFromBadFd \/ WriteToBadFd
+               \/ WriteVolatileTo \/ WriteAllVolatileTo \/ WriteToCursor \/ WriteAllToCursor \/ ReadFromBadFd \/ WriteToBadFd \/ ReadCursor
                \/ RefStore \/ RefLoad \/ ArrLoad \/ ArrStore \/ ArrCopyTo \/ ArrCopyFrom \/ ArrCopyToVS
                \/ BitmapReset
 
